@@ -458,7 +458,7 @@ func zShowMappings(ms []InputDescriptorMappingObject) string {
 }
 
 // zWatchdog runs f; when it has not returned in time the outcome is "<op> hang" (the goroutine is abandoned)
-const zWatchdogTime = 4 * time.Second
+const zWatchdogTime = 10 * time.Second // generous: the final runs happen on a busy box; a real hang never returns
 
 func zWatchdog(op string, f func() string) string {
 	done := make(chan string, 1)
@@ -1671,7 +1671,7 @@ func TestVerifC12(t *testing.T) {
 			}
 			continue
 		}
-		if c%8000 == 2000 {
+		if c%8000 == 1500 {
 			r.hostileRegexCase(36 + rng.Intn(8))
 			r.stats["hostile-regex-case"]++
 			continue
